@@ -40,5 +40,10 @@ func main() {
 	}
 	vlib.ExecConformance(c, "C04h", bins, vs, rand.New(rand.NewSource(vlib.Seed()+401)), n/2,
 		vlib.ExecMode{Faults: true, Panics: true, DirFaults: true, ArgFaults: true, HTTP: true, PlansPer: 4, Corpus: corpus})
+	// third pass: subscription events (each event of the stream is completed like a query
+	// result; a fault while resolving one event's sub-selection affects that response only)
+	vlib.ExecConformance(c, "C04s", bins, vs, rand.New(rand.NewSource(vlib.Seed()+402)), n/3,
+		vlib.ExecMode{Faults: true, Panics: true, DirFaults: true, Subs: true, PlansPer: 4,
+			Module: "GqlSubTrace", Config: "GqlSubTrace.cfg", Lines: vlib.SubTraceLines})
 	c.Finish()
 }
